@@ -375,14 +375,25 @@ def abstract_nonlinear(formulas):
     def real(e):
         return z3.ToReal(e) if z3.is_int(e) else e
 
+    factors = {}      # id of an abstracted product -> (term, its sorted non-numeral factors)   (flattening: products are AC)
+
     def mk_mul(kids, sort, budget=[0]):
         for n, k in enumerate(kids):
             if z3.is_app(k) and k.decl().kind() == z3.Z3_OP_ITE and budget[0] < 20000:
                 budget[0] += 1
                 c, x, y = k.children()
                 return z3.If(c, mk_mul(kids[:n] + [x] + kids[n + 1:], sort), mk_mul(kids[:n] + [y] + kids[n + 1:], sort))
-        nums = [k for k in kids if is_num(k)]
-        rest = sorted([k for k in kids if not is_num(k)], key=lambda t: t.get_id())
+        flat = []
+        for k in kids:
+            if k.get_id() in factors:
+                flat.extend(factors[k.get_id()][1])
+            elif z3.is_app(k) and k.decl().kind() == z3.Z3_OP_MUL and k.num_args() == 2 and is_num(k.arg(0)) and k.arg(1).get_id() in factors:
+                flat.append(k.arg(0))
+                flat.extend(factors[k.arg(1).get_id()][1])
+            else:
+                flat.append(k)
+        nums = [k for k in flat if is_num(k)]
+        rest = sorted([k for k in flat if not is_num(k)], key=lambda t: t.get_id())
         if not rest:
             r = None
         elif sort == z3.IntSort():
@@ -393,6 +404,8 @@ def abstract_nonlinear(formulas):
             r = real(rest[0])
             for k in rest[1:]:
                 r = nlmul(r, real(k))
+        if r is not None and len(rest) > 1:
+            factors[r.get_id()] = (r, rest)
         for nm in nums:
             r = nm if r is None else nm * r
         return r
@@ -464,8 +477,11 @@ def prove(assumptions, goal, timeout_s=10, opts=None, rounds=2):
     if (opts or {}).get("abstract_nl"):
         try:
             fa = abstract_nonlinear(formulas)
-            r0, _ = _in_child(lambda: _check_default(fa, min(timeout_s, 20)), min(timeout_s, 20) + 2)
-            if r0 == "unsat":
+            s0 = z3.Solver()
+            s0.set("timeout", int(min(timeout_s, 20) * 1000))
+            for f in fa:
+                s0.add(f)
+            if s0.check() == z3.unsat:
                 return Verdict(PROVED, "z3-5.1(products-generalised-to-UF)", (time.time() - t0) * 1000)
         except (z3.Z3Exception, RecursionError):
             pass
